@@ -73,6 +73,7 @@ type schCase struct {
 	StartSec     int      `json:"start_offset_sec"`
 	UseFilter    bool     `json:"use_filter"`
 	IgnoreCancel bool     `json:"adapters_ignore_cancelled_context"`
+	External     bool     `json:"external_triggers"` // other callers trigger the same foreign ID meanwhile (C09); the scheduler model is not consulted
 	Initial      int      `json:"initial_value"`
 	Ops          []schOp  `json:"ops"`
 	Readable     []string `json:"readable,omitempty"`
@@ -84,6 +85,9 @@ func schConfig() Config {
 
 // runScheduleCase drives one history; the model is asked the same questions. Returns a violation or disagreement text.
 func runScheduleCase(d *leandrv.Driver, c schCase, res *report.Result) error {
+	if c.External {
+		d = &leandrv.Driver{Null: true}
+	}
 	s, err := NewSim(schConfig())
 	if err != nil {
 		return err
@@ -181,6 +185,20 @@ func runScheduleCase(d *leandrv.Driver, c schCase, res *report.Result) error {
 				}
 				res.Count("run-finished")
 			}
+		case "ext":
+			// somebody else triggers the same foreign ID (sequential trigger, connector): accepted only when the latest run is finished
+			nb := len(s.W.runs)
+			s.Trigger(0, 0, 2*(100+i), Env{})
+			if len(s.W.runs) > nb {
+				now := off(s.W.S.now)
+				if !lastFinished {
+					res.Violate(report.Violation{Property: "C09", Oracle: "one-unfinished-run", Signature: "two-unfinished-runs-for-one-foreign-id",
+						Detail: fmt.Sprintf("an external Trigger at %d created a run while the previous run is unfinished", now), Replay: map[string]any{"suite": "sim-schedule", "case": c}})
+				}
+				created = append(created, now)
+				anchor = now
+				lastFinished = false
+			}
 		case "lease":
 			pk, ok := s.W.S.parkedAt(p.role)
 			if ok && pk.kind == gTimer {
@@ -218,7 +236,7 @@ func runScheduleCase(d *leandrv.Driver, c schCase, res *report.Result) error {
 				if err != nil {
 					return err
 				}
-				if m != "not-due" {
+				if m != "not-due" && !d.Null {
 					disagree("the timer of the schedule process is not due", "not-due", m, i)
 				}
 				continue
@@ -241,7 +259,7 @@ func runScheduleCase(d *leandrv.Driver, c schCase, res *report.Result) error {
 				}
 				res.Eval(1)
 				res.Count("step:park")
-				if impl != m {
+				if impl != m && !d.Null {
 					disagree("deadline armed by the schedule process", impl, m, i)
 				}
 				if after != before {
@@ -262,7 +280,7 @@ func runScheduleCase(d *leandrv.Driver, c schCase, res *report.Result) error {
 			}
 			res.Eval(1)
 			res.Count("step:wake:" + m)
-			if (m == "created") != (impl == "created") {
+			if (m == "created") != (impl == "created") && !d.Null {
 				disagree("outcome of a schedule iteration", impl, m, i)
 			}
 			// the property's own oracle
@@ -272,17 +290,24 @@ func runScheduleCase(d *leandrv.Driver, c schCase, res *report.Result) error {
 				}
 				if !lastFinished {
 					viol("run-created-while-previous-unfinished", fmt.Sprintf("the previous run is unfinished but a run was created at %d", now), i)
+					cc := c
+					cc.Ops = c.Ops[:i+1]
+					res.Violate(report.Violation{Property: "C09", Oracle: "one-unfinished-run", Signature: "scheduled-trigger-while-in-progress",
+						Detail: fmt.Sprintf("the scheduler created a run at %d although the latest run of the foreign ID is unfinished: two unfinished runs for one foreign ID", now), Replay: map[string]any{"suite": "sim-schedule", "case": cc}})
 				}
 				if after-before > 1 {
 					viol("several-runs-in-one-iteration", fmt.Sprintf("%d runs created at %d", after-before, now), i)
 				}
 				need := firstTickAfter(anchor)
+				if c.External {
+					need = now // with other callers triggering, the scheduler's deadline was computed from what it read earlier: not compared
+				}
 				if now < need {
 					viol("run-created-early", fmt.Sprintf("run created at %d, before the first cron instant %d that follows %d (the later of the schedule's start and the latest run's creation)", now, need, anchor), i)
 				}
 				if len(created) > 0 {
 					prev := created[len(created)-1]
-					if firstTickAfter(prev) > now {
+					if firstTickAfter(prev) > now && !c.External {
 						viol("two-runs-in-one-tick", fmt.Sprintf("runs created at %d and %d with no cron instant in between", prev, now), i)
 					}
 				}
@@ -337,7 +362,7 @@ func ParseEnvOrEmpty(s string) Env {
 }
 
 func genSchCase(r *rng.R, long bool) schCase {
-	c := schCase{Spec: rng.Pick(r, cronSpecs), StartSec: rng.Pick(r, []int{0, 1, 59, 60, 3599, 3600, 86399, 86400 * 3, 12345}), UseFilter: r.Chance(2, 3), IgnoreCancel: r.Chance(1, 2), Initial: 2 * (1 + r.Intn(40))}
+	c := schCase{Spec: rng.Pick(r, cronSpecs), StartSec: rng.Pick(r, []int{0, 1, 59, 60, 3599, 3600, 86399, 86400 * 3, 12345}), UseFilter: r.Chance(2, 3), IgnoreCancel: r.Chance(1, 2), External: r.Chance(1, 4), Initial: 2 * (1 + r.Intn(40))}
 	n := 30
 	if long {
 		n = 60
@@ -351,6 +376,8 @@ func genSchCase(r *rng.R, long bool) schCase {
 			c.Ops = append(c.Ops, schOp{Kind: "tick", Sec: rng.Pick(r, ticks)})
 		case k < 80 && c.UseFilter:
 			c.Ops = append(c.Ops, schOp{Kind: "filter", On: r.Chance(1, 2)})
+		case k < 86 && c.External:
+			c.Ops = append(c.Ops, schOp{Kind: "ext"})
 		case k < 93:
 			c.Ops = append(c.Ops, schOp{Kind: "finish"})
 		default:
